@@ -8,7 +8,7 @@ cls("DictObj", truthy="value", value="U")
 
 cls("FileInfo", file_path="U", hash_checksums="U",
     _order=["file_path", "hash_checksums"], _defaults={"hash_checksums": "EMPTY_TUPLE()"})
-cls("ShardInfo", file_infos="U", file_info0="ref:FileInfo", number_of_examples="int",
+cls("ShardInfo", file_infos="list:ref:FileInfo", number_of_examples="int",
     custom_metadata="ref:DictObj",
     _order=["file_infos", "number_of_examples", "custom_metadata"],
     _defaults={"number_of_examples": "0", "custom_metadata": "NEW_EMPTY_DICT()"})
